@@ -171,18 +171,14 @@ theorem sLParts_np (ty : Bytes) (ops : List ELPart) (cur orig : GoVal) : (sLPart
     generalize sLPart op cur orig = r at h
     cases r with
     | ok v =>
-      cases v with
-      | bool n b =>
-        cases n with
-        | false =>
-          simp only []
-          split
+      simp only []
+      split
+      · split
+        · rfl
+        · split
           · rfl
-          · split
-            · rfl
-            · exact sLParts_np ty rest cur orig
-        | true => rfl
-      | _ => rfl
+          · exact sLParts_np ty rest cur orig
+      · rfl
     | panic => simp [Out.np] at h
     | _ => rfl
 termination_by structural ops
